@@ -10,3 +10,4 @@ import TFV.Properties.Src.GetNJobs
 #print axioms TFV.Split.C16_rowwise
 #print axioms TFV.Split.C16_getFitness
 #print axioms TFV.SrcTie.C16_src_get_n_jobs
+#print axioms TFV.SrcTie.C16_src_get_n_jobs_range
